@@ -278,6 +278,14 @@ theorem grideval_int_arith_exact_of_sizes (dims : List (Dim α)) (coef : Int →
   grideval_int_arith_exact dims coef coords hwf
     (gridIdxSafe_of_sizeBound _ _ (by simp [hlen]) h)
 
+/-- **Entry counter.**  A tensor that lists valid indices only (every intermediate tensor of `grideval`
+does: `slice_is_mode_product`, `grideval_eq_spec`) lists at most `Π ranges` *distinct* index tuples — the
+number of rows of the n-tuple once CHOLMOD has merged duplicates.  So the `int` entry counter of
+`slicemultiply` (`for (i = 0; i < a->rows; i++)`) stays below 2³¹ whenever the dense size does. -/
+theorem listed_entries_le_dense (s : NdSparse α) (hs : s.WF) :
+    (s.entries.map (·.1)).dedup.length ≤ PsV.Permute.prodL s.ranges :=
+  listed_count_le s hs
+
 /-! ## 7. the `slicemultiply` chain as one flat sum, and the set of listed grid points
 
 CHOLMOD's `triplet_to_sparse` / `ssmult` / `sparse_to_triplet` are modelled by their meaning (section 2).
